@@ -742,3 +742,18 @@ Definition guard_tad_walk (d : dataset) : bool :=
   | Ok fr => guard_doseid (with_rows d (map fst fr) true)
   | Err _ => false
   end.
+
+(* expand_additional_doses(model, flag=False) — the default: the ADDL, II and _EXPANDED columns are dropped
+   from the expanded frame (df.drop([addl, ii, '_EXPANDED'], axis=1)); without an ADDL/II pair the model is
+   returned as it is, columns included *)
+Definition drop_addl_ii (r : row) : row :=
+  mkRow (r_lab r) (r_id r) (r_time r) (r_amt r) (r_dv r) (r_evid r) (r_mdv r) (r_cmt r) (r_admid r) (r_ss r)
+        0 0 (r_covs r) (r_other r).
+Definition expand_noflag_impl (d : dataset) : res (list row) :=
+  let s := ds_sch d in
+  if negb (has_addl s && has_ii s) then Ok (ds_rows d)
+  else match expand_impl d with
+       | Ok l => Ok (map (fun p : row * bool => drop_addl_ii (fst p)) l)
+       | Err e => Err e
+       end.
+
